@@ -115,6 +115,8 @@ SYS_QUICK += [
     # a low-priority control on a valve SETTING (which implies re-opening the valve) against a default-priority CLOSE on the same valve
     dict(name='valve-setting-vs-close', concrete_tank=True, valve_target=True, H=3600, dur=3600, qset=[0.03], tank_link='pipe_in',
          controls=[dict(rel='gt', value=25.0, attr='level', target='V3', what='setting', priority=1), dict(rel='gt', value=0, attr='level', target='V3', priority=3)]),
+    dict(name='reader-built-controls', concrete_tank=True, valve_target=True, via_reader=True, H=3600, dur=3600, qset=[0.03], tank_link='pipe_in',
+         controls=[dict(rel='gt', value=25.0, attr='level', target='V3', what='setting', priority=1), dict(rel='gt', value=0, attr='level', target='V3', priority=3)]),
     # the junction that drives a pressure control is cut off by a time control: its reported pressure is 0, the control must act on that
     dict(name='isolated-pressure', concrete_tank=True, bypass=True, time_control=True, H=3600, dur=3600, qset=[0.0], tank_link='pipe_in',
          controls=[dict(rel='lt', value=1, attr='pressure', source='J2', target='P5')]),
